@@ -14,12 +14,11 @@ Hypothesis OK : net_ok n = true.
 Hypothesis outs_nodup : NoDup (outputs n).
 Hypothesis outs_exact : forall o, In o (outputs n) <-> (o < N /\ is_output (role_at n o) = true).
 Hypothesis plain : forall p l, p < N -> In l (nd_in (node_at n p)) -> l_td l = false.
-Hypothesis single : forall p, p < N -> neuronb n p = true -> NoDup (map (@l_src R) (nd_in (node_at n p))).
 Hypothesis ACYC : acyclic n.
 Hypothesis REACH : reachable n.
 Hypothesis all_known : forall p, p < N -> neuronb n p = true -> known (nd_act (node_at n p)) = true.
 
-Let FW : feedforward n (lp n N) := acyclic_feedforward n OK ACYC REACH outs_nodup outs_exact plain single.
+Let FW : feedforward n (lp n N) := acyclic_feedforward n OK ACYC REACH outs_nodup outs_exact plain.
 
 Variable x : list R.
 Hypothesis Hx : length x = length (positions_with n is_input).
